@@ -56,6 +56,12 @@ func (k Keeper) OnRecvPacket(
 		return channeltypes.NewErrorAcknowledgement(err)
 	}
 
+	// an account whose address is not 20 bytes long (interchain accounts, derived
+	// module accounts) has no EVM address: keep its coins in the bank
+	if len(recipient) != common.AddressLength {
+		return ack
+	}
+
 	senderAcc := k.accountKeeper.GetAccount(ctx, sender)
 
 	// return acknowledgement without conversion if sender is a module account
@@ -157,6 +163,11 @@ func (k Keeper) ConvertCoinToERC20FromPacket(ctx sdk.Context, data transfertypes
 	ctx = ctx.
 		WithKVGasConfig(storetypes.GasConfig{}).
 		WithTransientKVGasConfig(storetypes.GasConfig{})
+
+	// an account whose address is not 20 bytes long has no EVM address
+	if len(sender) != common.AddressLength {
+		return nil
+	}
 
 	// assume that all module accounts on Haqq Network need to have their tokens in the
 	// IBC representation as opposed to ERC20
